@@ -171,3 +171,12 @@ package section
 //@   ensures [C04,C13] the-end-of-the-last-patch-line: len(c.Patch) > 0 ==> p == c.Patch[len(c.Patch) - 1].StartPos + len(c.Patch[len(c.Patch) - 1].Text)
 //@   ensures [C04,C13] an-empty-patch-ends-after-the-second-at-pair: len(c.Patch) == 0 ==> p == c.AtPos + 2
 //@   assigns nothing
+
+// sort.Interface over the line positions: sort.Sort calls Less and Swap with indexes below Len only.
+//@ func (a byOffset) Less(i, j) (r)
+//@   requires 0 <= i && i < len(a) && 0 <= j && j < len(a)
+//@   assigns nothing
+
+//@ func (a byOffset) Swap(i, j)
+//@   requires 0 <= i && i < len(a) && 0 <= j && j < len(a)
+//@   assigns elems(a)
